@@ -19,7 +19,7 @@ pub fn meta() -> Meta {
     Meta {
         id: "C06",
         level: "exploration",
-        rule: "forged tables through the real apply_filters+write_fasta and filter(update_kmers)+iter, compared with the row predicate of the statement: (a) every row over the 16 symbols {A,C,G,T,-,R,Y,S,W,K,M,B,D,H,V,N} for 1..3 samples and over {A,C,-,N,R,S} for 4..5 samples (thorough: all 16 symbols for 4 samples, {A,C,G,-,N,R,S,W} for 5) as a one-row table; (b) every ordered pair of 40 representative rows and every ordered triple of 12 (3 samples), both update_kmers settings, so the three parallel vectors must stay aligned under removal; (c) 6..12 samples with 'j copies of x, rest y' rows; each x 4 site filters x ambig-mask x no-gap-only-sites x filter-ambig-as-missing x every threshold 0..n (frequencies (t-1/2)/n, and additionally t/n where that product is exact in f64); plus a CLI family (each case as a k=5 file and, under 32-letter keys, as a k=33 file read through the 128-bit arm) through `ska align` option parsing. Non-trivial = a (table, setting) pair; distinct outcomes = distinct expected column multisets.".into(),
+        rule: "forged tables through the real apply_filters+write_fasta and filter(update_kmers)+iter, compared with the row predicate of the statement: (a) every row over the 16 symbols {A,C,G,T,-,R,Y,S,W,K,M,B,D,H,V,N} for 1..3 samples and over {A,C,-,N,R,S} for 4..5 samples (thorough: all 16 symbols for 4 samples, {A,C,G,-,N,R,S,W} for 5) as a one-row table; (b) every ordered pair of 40 representative rows and every ordered triple of 12 (3 samples), both update_kmers settings, so the three parallel vectors must stay aligned under removal; (c) 6..12 samples with 'j copies of x, rest y' rows; each x 4 site filters x ambig-mask x no-gap-only-sites x filter-ambig-as-missing x every threshold 0..n (frequencies (t-1/2)/n, and additionally t/n where that product is exact in f64); plus a CLI family (each case as a k=5 file and, under 32-letter keys, as a k=33 file read through the 128-bit arm) through `ska align` option parsing; decimal --min-freq values whose product with 10 / 20 samples is a whole number, through `ska align` and `ska weed`. Non-trivial = a (table, setting) pair; distinct outcomes = distinct expected column multisets.".into(),
         assumptions: vec!["all-gap rows are unreachable (asserted as an invariant by C10) and excluded".into(), "thresholds use frequencies whose ceil is robust in f64 (DESIGN §4 rule 2)".into()],
         exhaustive_when_uncapped: true,
     }
@@ -313,6 +313,44 @@ pub fn run(ctx: &Ctx, rep: &mut Report) {
                 rep.corner("cli_align");
                 if let Err(e) = cli_one(tab, &f) {
                     rep.violate(format!("cli {width}-bit rows={} spec={}", rows_json(tab), spec_json(&f)), format!("{width}-bit file: {e}"), json!({"cli": true, "k": tab.k, "rows": rows_json(tab), "spec": spec_json(&f)}));
+                }
+            }
+        }
+        // decimal thresholds whose product with the sample count is a whole number: 10 samples x 0.1 .. 0.9 and 20
+        // samples x 0.05 .. 0.95, row c present in exactly c samples; `ska align` (rounds up) and `ska weed` (rounds
+        // down) must both keep exactly the rows with c >= n x f
+        for n in [10usize, 20] {
+            idx += 1;
+            if !ctx.mine(idx) {
+                continue;
+            }
+            let mut rows = BTreeMap::new();
+            for c in 1..=n {
+                let row: Vec<u8> = (0..n).map(|i| if i < c { if i % 2 == 0 { b'A' } else { b'C' } } else { b'-' }).collect();
+                rows.insert(String::from_utf8(nth_string(b"ACGT", 4, (c as u64 * 37 + 11) % 256)).unwrap(), row);
+            }
+            let t = Table { k: 5, rc: true, names: (0..n).map(|i| format!("s{i}")).collect(), rows };
+            let dir = scratch::path("c06dec");
+            std::fs::create_dir_all(&dir).unwrap();
+            FileState::fresh(t.clone()).write(&format!("{dir}/in.skf"));
+            for j in 1..n {
+                let f = if n == 10 { format!("0.{j}") } else { format!("{:.2}", j as f64 * 0.05) };
+                let f = f.trim_end_matches('0').to_string();
+                let want: usize = (j..=n).count();
+                rep.evaluations += 2;
+                rep.nontrivial += 2;
+                rep.corner("decimal_threshold_with_whole_product");
+                let o = cli::run(&["align", "in.skf", "--min-freq", &f, "--filter", "no-filter"], &dir, None);
+                let (_, seqs) = real::parse_fasta(&o.stdout);
+                let got = seqs.first().map_or(0, |s| s.len());
+                if o.code != 0 || got != want {
+                    rep.violate(format!("decimal threshold align n={n} f={f}"), format!("ska align --min-freq {f} on {n} samples keeps {got} of the rows present in 1..{n} samples; {n} x {f} = {j}, so the {want} rows present in at least {j} samples pass"), json!({"cli": true, "decimal": f, "n": n, "cmd": "align"}));
+                }
+                let _ = std::fs::remove_file(format!("{dir}/w.skf"));
+                let o = cli::run(&["weed", "in.skf", "--min-freq", &f, "--filter", "no-filter", "-o", "w.skf"], &dir, None);
+                let got = FileState::read(&format!("{dir}/w.skf")).map(|s| s.table.rows.len());
+                if o.code != 0 || got != Ok(want) {
+                    rep.violate(format!("decimal threshold weed n={n} f={f}"), format!("ska weed --min-freq {f} on {n} samples keeps {got:?} rows; {n} x {f} = {j}, so the {want} rows present in at least {j} samples stay"), json!({"cli": true, "decimal": f, "n": n, "cmd": "weed"}));
                 }
             }
         }
